@@ -1,29 +1,32 @@
 use crate::core::*;
 
-pub mod c13;
-pub mod c14;
-pub mod c20;
-
-pub const ALL: &[&str] = &["C13", "C14", "C20"];
-
-pub fn run(prop: &str, rep: &Report) -> bool {
-    match prop {
-        "C13" => c13::run(rep),
-        "C14" => c14::run(rep),
-        "C20" => c20::run(rep),
-        _ => return false,
-    }
-    true
+macro_rules! props {
+    ($( $id:literal => $m:ident ),* $(,)?) => {
+        $( pub mod $m; )*
+        pub const ALL: &[&str] = &[$($id),*];
+        pub fn run(prop: &str, rep: &Report) -> bool {
+            match prop {
+                $( $id => $m::run(rep), )*
+                _ => return false,
+            }
+            true
+        }
+        /// Re-execute one saved case in strict mode. None = this replay kind is not known.
+        pub fn replay(prop: &str, rep: &Report, case: &serde_json::Value) -> Option<Check> {
+            match prop {
+                $( $id => $m::replay(rep, case), )*
+                _ => None,
+            }
+        }
+    };
 }
 
-/// Re-execute one saved case in strict mode. None = this replay kind is not known.
-pub fn replay(prop: &str, rep: &Report, case: &serde_json::Value) -> Option<Check> {
-    match prop {
-        "C13" => c13::replay(rep, case),
-        "C14" => c14::replay(rep, case),
-        "C20" => c20::replay(rep, case),
-        _ => None,
-    }
+props! {
+    "C13" => c13,
+    "C14" => c14,
+    "C15" => c15,
+    "C16" => c16,
+    "C20" => c20,
 }
 
 /// subprocess worker entry (crash-isolated families); returns the process exit code
